@@ -46,7 +46,6 @@ func argName(e ast.Expr) string {
 // Instances are the calls where the spelling is informative: both arguments
 // are spelled like the two parameters, in some order.
 
-//
 // Not informative, hence not instances (enumerated from the tree): coordinate
 // constructors (single-letter parameters: XY(-v.Y, v.X) is a perpendicular),
 // numbered generic names (p1/p2, i1/i2: AddQuad(p2, p1, ..) flips orientation),
@@ -55,9 +54,9 @@ var numberedName = regexp.MustCompile(`^[A-Za-z]{1,2}[0-9]+$`)
 
 // argSwapExceptions: deliberate reversals, confirmed by reading.
 var argSwapExceptions = map[string]string{
-	"render3d.*RefractMaterial.DestDensity calls SourceDensity: dest for parameter source": "deliberate reversal: the destination density of a refraction is the source density with the roles exchanged and the normal negated",
-	"render3d.*RefractMaterial.DestDensity calls SourceDensity: source for parameter dest": "deliberate reversal (see above)",
-	"render3d.*RefractMaterial.SourceDensity calls reflectAmount: dest for parameter source": "SampleSource chooses reflection with probability reflectAmount(normal, dest); its density must use the same probability (sampler/density agreement is checked by SAMPLERPAIR)",
+	"render3d.*RefractMaterial.DestDensity calls SourceDensity: dest for parameter source":             "deliberate reversal: the destination density of a refraction is the source density with the roles exchanged and the normal negated",
+	"render3d.*RefractMaterial.DestDensity calls SourceDensity: source for parameter dest":             "deliberate reversal (see above)",
+	"render3d.*RefractMaterial.SourceDensity calls reflectAmount: dest for parameter source":           "SampleSource chooses reflection with probability reflectAmount(normal, dest); its density must use the same probability (sampler/density agreement is checked by SAMPLERPAIR)",
 	"render3d.*RefractMaterial.DestDensity calls SourceDensity with (dest, source) for (source, dest)": "the destination density of a refraction is by definition the source density with the roles reversed and the normal negated (the sibling SampleDest does the same)",
 }
 
@@ -193,7 +192,6 @@ func (c *Ctx) runArgSwap(rule string, pkgs []*packages.Package, fileOK func(name
 		}
 	}
 }
-
 
 // ---------------------------------------------------------------------------
 // SIGNED — the unexported ray kernels report *signed* ray parameters ("reports
